@@ -98,6 +98,15 @@ Fixpoint span_tag (tag : N) (its : list item) : list item * list item :=
 Fixpoint vl_of_list (l : list val) : vlist :=
   match l with [] => VNone | v :: r => VCons v (vl_of_list r) end.
 
+Fixpoint map_opt {A B} (f : A -> option B) (l : list A) : option (list B) :=
+  match l with
+  | [] => Some []
+  | x :: r => match f x with
+              | Some y => match map_opt f r with Some ys => Some (y :: ys) | None => None end
+              | None => None
+              end
+  end.
+
 Fixpoint interp_val (s : sch) (cur : vlist) (it : item) {struct s} : option val :=
   match s with
   | SPrim k => prim_of_item k it
@@ -127,11 +136,10 @@ with match_fields (fl : flist) (i : nat) (cur : vlist) (its : list item) {struct
               let '(es, rest) := span_tag (fa_tag a) its' in
               if fa_skip a then match_fields r (S i) (vl_set i (VList VNone) cur) rest
               else
-                (fix elems (l : list item) (acc : list val) : option (vlist * list item) :=
-                   match l with
-                   | [] => match_fields r (S i) (vl_set i (VList (vl_of_list (rev acc))) cur) rest
-                   | e :: l' => match interp_val s cur e with Some v => elems l' (v :: acc) | None => None end
-                   end) (it :: es) []
+                match map_opt (interp_val s cur) (it :: es) with
+                | Some vs => match_fields r (S i) (vl_set i (VList (vl_of_list vs)) cur) rest
+                | None => None
+                end
             else if fa_skip a then match_fields r (S i) cur its'      (* one item, whatever it contains *)
             else
               match interp_val s cur it with
